@@ -172,3 +172,34 @@ func VerifH_C03_commit_points() {
 		vapi.Assert("reorg-ends-flushed", last == 'f' || rs.DBStore.unflushed == 0)
 	}
 }
+
+// VerifH_C03_init: the commits made while a store is created for the first
+// time. Each committed image (the time-based flush inside the genesis
+// ApplyBlock may or may not fire: symbolic clock) reopens either as
+// "not initialised yet" - and is then initialised normally - or to the genesis
+// tip with state and block present; never to a tip the node did not have.
+//
+//verif:harness prop=C03 tier=quick replay=interp clock=symbolic z3timeout=400 require=audited bounds="first-time initialisation of a DBStore over MemDB; time.Since symbolic at the flush check inside the genesis ApplyBlock"
+func VerifH_C03_init() {
+	newAbsWorld()
+	n, genesis := absNetwork()
+	rdb := &recDB{inner: NewMemDB()}
+	gid := genesis.ID()
+	rdb.onFlush = func() {
+		vapi.Reach("audited")
+		st2, tip2, err := NewDBStore(rdb, n, genesis, nil)
+		vapi.Assert("init.reopen-no-error", err == nil)
+		if err != nil {
+			return
+		}
+		vapi.Assert("init.reopens-to-genesis", tip2.Index.ID == gid && tip2.Index.Height == 0)
+		idx, ok := st2.BestIndex(0)
+		vapi.Assert("init.genesis-indexed", ok && idx.ID == gid)
+		_, bs, bok := st2.Block(gid)
+		vapi.Assert("init.genesis-block-with-supplement", bok && bs != nil)
+		cs, sok := st2.State(gid)
+		vapi.Assert("init.genesis-state", sok && cs.Index.ID == gid)
+	}
+	_, tip, err := NewDBStore(rdb, n, genesis, nil)
+	vapi.Assert("init.no-error", err == nil && tip.Index.ID == gid)
+}
